@@ -284,7 +284,7 @@ func (it *Interp) storeAt(o *Object, off int, t types.Type, v Val) {
 	}
 }
 
-const iteLimit = 96
+const iteLimit = 256
 
 // load through a pointer.
 func (it *Interp) load(p Ptr, t types.Type) Val {
